@@ -71,6 +71,16 @@ Theorem C17_oracle_accepts_model : forall (exact : bool) (sc1 sc2 : Q) (l : list
 Proof. exact oracle_accepts_model. Qed.
 Print Assumptions C17_oracle_accepts_model.
 
+(** The general link between the two halves of the correspondence check: for EVERY case (every
+    input and every tuple of observed outputs, whatever the implementation returned), if the
+    observation agrees with the model ([corr_b]: exact fields equal, divided fields within the
+    tolerance, plus the exact facts variance >= 0, std_dev^2 = variance, low <= mean <= high) then
+    it satisfies the property oracle [prop_b] at the same tolerance (twice the tolerance where two
+    observations are compared with each other).  No input requirement is needed for C17. *)
+Theorem C17_oracle_sound : forall c : case, corr_b c = true -> prop_b c = true.
+Proof. exact oracle_sound. Qed.
+Print Assumptions C17_oracle_sound.
+
 (** Non-vacuity: a concrete dataset with negatives, a repeat and widely different magnitudes. *)
 Definition c17_example : list Qc :=
   [Q2Qc (10 # 1); Q2Qc (-25 # 10); Q2Qc (10 # 1); Q2Qc (1000000 # 1); Q2Qc (1 # 1000)].
